@@ -52,6 +52,7 @@ type SchemaOpts struct {
 	ForceIndex   map[string]bool // tag name -> indexed (twin runs)
 	IntFieldOnly bool
 	MaxShards    int
+	TTLDays      int
 }
 
 var tagTypesNonEntity = []databasev1.TagType{
@@ -67,6 +68,9 @@ func GenMeasureSchema(tp *simcore.Tape, o SchemaOpts) *MeasureSchema {
 		maxShards = 3
 	}
 	s := &MeasureSchema{Group: "g1", Name: "m1", Shards: uint32(tp.Range(1, maxShards)), SegDays: 1, TTLDays: 30}
+	if o.TTLDays > 0 {
+		s.TTLDays = uint32(o.TTLDays)
+	}
 	nEnt := tp.Weighted(5, 3, 1) + 1
 	fam := "default"
 	s.Families = []string{fam}
